@@ -64,7 +64,7 @@ class flatten:
         return flat(l)
 
 
-@contract('hotxlfp.formulas.utils:epoch_seconds', props=['C13'])
+@contract('hotxlfp.formulas.utils:epoch_seconds', props=['C13', 'C14'])
 class epoch_seconds:
     args = dict(date=DATE)
 
